@@ -337,6 +337,6 @@ MANIFEST = {
                   'of the previous population, itself checked against its definition), later particles lie in the prior support, '
                   'weights are 1 resp. prior/mixture with the mixture centred on the previous particles with their weights and '
                   'covariance 2*weighted variance, and n_sim counts all consumed simulations (SMT validity queries per path).',
-    'level_note': '1 parameter, n=2 particles, batch_size 2, <=2..3 rounds, <=2..3 batches, bounded proposal retries; densities, '
+    'level_note': '1 parameter, n=2 particles, batch_size 2, <=2..3 rounds, <=2..3 batches, bounded proposal retries; continued sampling both from a constructed population and after a real two-round first call; the mixture parameters used are recorded and compared with the previous population; densities, '
                   'exp/log uninterpreted with the listed axioms; exact reals; z3 trusted.',
 }
